@@ -187,7 +187,10 @@ def concretize(P: dict, variant: int = 0, reverse_bodies: bool = False) -> onnx.
     if variant % 4 == 2 and inits:
         # the first initializer is also a graph input: callers may override it (IR version >= 4)
         inputs.append(helper.make_tensor_value_info(inits[0].name, TensorProto.FLOAT, list(inits[0].dims)))
-    graph = helper.make_graph(nodes, "main", inputs, outs, initializer=inits)
+    graph = helper.make_graph(nodes, "main", inputs, outs, initializer=inits, doc_string="corpus program")
+    for node in graph.node[:1]:
+        node.doc_string = "first node"
+        node.metadata_props.add(key="vf.tag", value="n1")
     funcs = []
     for fi, f in enumerate(P["f"], start=1):
         body = P["g"][f["body"] - 1]
